@@ -54,6 +54,7 @@ json run_read_job(const json& job) {
                 json bj = block2j(b, tables, render, render_bytes);
                 if (dump == "full") blocks.push_back(bj);
                 else if (dump == "counts") blocks.push_back(bj["counts"]);
+                else if (dump == "hash") blocks.push_back(fnv64(bj.dump(-1, ' ', false, json::error_handler_t::replace)));
             }
         }
         catch (std::exception& e) {
